@@ -7,6 +7,7 @@ import CnvVerif.Driver.Json
 import CnvVerif.Model.Bins
 open Lean
 namespace CnvVerif.Drv
+namespace BinsDrv
 
 /-! ### vocabulary of the spec: maximal stretches of a base predicate -/
 
@@ -118,6 +119,9 @@ def candsJ (c : Option (List (List String))) : Json :=
   match c with
   | none => Json.null
   | some l => arrJ (l.map (fun x => arrJ (x.map strJ)))
+
+end BinsDrv
+open BinsDrv
 
 def handleBins (op : String) (inp : Json) (impl : Option Json) : R (Option Json) := do
   match op with
